@@ -55,18 +55,23 @@ class FileModel:
         self.duration = t
         # fence posts: global positions of granule-bearing pages of each link's own serial
         self.fence = []          # per link sorted list of global positions
+        self.tailonly = []       # per link: fence posts of pages that hold nothing but the tail of a packet begun on an earlier page
         self.page_offsets = []   # raw offsets of all pages
         lt = zoo.link_table(self.pages)
         assert len(lt) == self.nl, (len(lt), self.nl)
         self.lt = lt
         for k, l in enumerate(lt):
             posts = set([self.start[k]])
+            tails = set()
             for p in self.pages[l['first']:l['last'] + 1]:
                 if p.serial == self.links[k]['serial'] and p.gran != -1:
                     g = p.gran - self.links[k].get('goff', 0)
                     g = max(0, min(g, self.links[k]['n']))
                     posts.add(self.start[k] + g)
+                    if (p.flags & 1) and p.lacing and p.lacing[-1] < 255 and all(x == 255 for x in p.lacing[:-1]):
+                        tails.add(self.start[k] + g)
             self.fence.append(sorted(posts))
+            self.tailonly.append(tails)
         self.page_offsets = [p.offset for p in self.pages]
         self.chunks = desc['chunks'] if desc.get('open') else []
 
@@ -86,6 +91,15 @@ class FileModel:
             if f < p and f > best:
                 best = f
         return best
+
+    def page_floor_decodable(self, p):
+        """greatest fence post strictly below p that does not belong to a tail-only page (known finding
+        page_seek_behind_tail_only_page_lands_one_page_early: the library restarts one page earlier there)."""
+        k = self.link_of_pos(p)
+        f = self.page_floor(p)
+        while f in self.tailonly[k] and f > self.start[k]:
+            f = self.page_floor(f)
+        return f
 
     def time_target(self, t):
         """(link, sample position) for a time t in [0,duration); None if out of range."""
